@@ -25,6 +25,7 @@ import (
 	md "github.com/pbenner/autodiff/statistics/matrixDistribution"
 	me "github.com/pbenner/autodiff/statistics/matrixEstimator"
 	ve "github.com/pbenner/autodiff/statistics/vectorEstimator"
+	"github.com/pbenner/threadpool"
 )
 
 func (cs *EMCase) optLabel() string {
@@ -162,7 +163,7 @@ func runMatrixHmm(cs *EMCase, tr *[]step) error {
 	for r, rec := range cs.Data {
 		xs[r] = denseMatrix(rec)
 	}
-	return est.EstimateOnData(xs, nil, pool1)
+	return cs.runOn(func(p threadpool.ThreadPool) error { return est.EstimateOnData(xs, nil, p) })
 }
 
 // matrix mixture: cs.Data[0] = observations, each a flattened r x d matrix; cs.Rows = r
@@ -194,7 +195,7 @@ func runMatrixMixture(cs *EMCase, tr *[]step) error {
 		}
 		xs[k] = denseMatrix(rows)
 	}
-	return est.EstimateOnData(xs, nil, pool1)
+	return cs.runOn(func(p threadpool.ThreadPool) error { return est.EstimateOnData(xs, nil, p) })
 }
 
 /* the block that is not optimised must not move
